@@ -294,6 +294,9 @@ def fresh_context(an, rep):
                     src = mir.strip_refs(inner[3][0])
                     if src[0] == "call" and src[1] == "BinarySerializer::serialize":
                         on_ok = True
+                # explicit `match value.serialize(..) { Ok(..) => .., Err(e) => return Err(e) }`: Ok is discriminant 0
+                if inner[0] == "call" and inner[1] == "BinarySerializer::serialize" and val == 0:
+                    on_ok = True
         R.check(on_ok, "serialize", "into_output dominated by Ok", "into_output() is not dominated by the Continue/Ok edge "
                 "of `value.serialize(&mut context)?`: a failed encoding could hand back bytes", mir.loc(ser, bb),
                 sample={"fn": "serialize", "into_output": "dominated by the Ok edge of value.serialize"})
